@@ -14,6 +14,10 @@ specification's shape.  Verdict: every rendering must give exactly `ast`.
   * a parse error for a statement of the grammar          -> VIOLATION too: the
     grammar is by construction the supported one.  Constructs the code refuses
     by design are not generated (REFUSED_BY_DESIGN).
+  * statements with characters outside ASCII are also written as texts longer than
+    the scanner's 1024-byte buffer: the blanks in front of such a literal or
+    identifier are stretched until each of its bytes in turn lies on the offsets
+    1020..1030 and 2044..2052 (white space between tokens is insignificant).
   * trailing-token scenarios (junk = 1): a complete statement followed by one
     token that can never continue a statement (SqlGrammar!NeverContinues) must
     not be read as that statement (the mechanism by which clauses get cut).
@@ -42,6 +46,8 @@ TIERS = {
     "thorough": dict(main=dict(size="T", slices="MC_AllSlices"),
                      trail=dict(size="Q", slices=TRAIL_SLICES_T, stmts="MC_Cover")),
 }
+
+MAX_HANGS = 5
 
 STMT_KINDS = ["select", "insert", "update", "delete", "create_table", "create_database", "use", "show_databases"]
 
@@ -171,6 +177,8 @@ class Tally:
 def classify(scn, g):
     """None if the rendering group g agrees with the specification, else (signature, finding ids, what)."""
     exp = scn["ast"]
+    if g["kind"] == "hang":
+        return ("front-end-hang", ["front-end-hang"], "the front end did not return (watchdog)")
     if scn["junk"] == 0:
         if g["kind"] == "stmt":
             if g.get("ast") == exp:
@@ -199,10 +207,15 @@ def classify(scn, g):
     return None
 
 
+def wants_long(scn):
+    """Statements with characters outside ASCII are also written as texts longer than the scanner's buffer."""
+    return scn["junk"] == 0 and any(not t[1].isascii() for t in scn["toks"])
+
+
 def replay(ctx, pool):
     p = json.load(open(ctx.replay))
     scn = p["scenario"]
-    res = fe.one_request(pool, dict(mode="c10", toks=scn["toks"], trail=scn["junk"] > 0, id=0))
+    res = fe.one_request(pool, dict(mode="c10", toks=scn["toks"], trail=scn["junk"] > 0, long=wants_long(scn), id=0))
     bad = [(g, classify(scn, g)) for g in res.get("groups", [])]
     bad = [(g, c) for g, c in bad if c]
     print("replay of %s: %d renderings parsed, %d disagree" % (ctx.replay, res.get("n", 0), len(bad)))
@@ -233,21 +246,35 @@ def _run(ctx, pool):
     pending = {}
     nextid = [0]
     tally = Tally()
-    stats = dict(scenarios=0, trailing_scenarios=0, renderings=0, error_renderings=0, panic_renderings=0)
+    stats = dict(scenarios=0, trailing_scenarios=0, renderings=0, error_renderings=0, panic_renderings=0, long_scenarios=0,
+                 long_rendering_groups=0)   # long_rendering_groups: texts longer than the scanner's buffer that were parsed
     distinct = set()
     nontrivial = set()
     viol = {}      # signature -> dict(count, example)
     samples = []
     configs = []
 
+    hangs = [0]
+    retry = []
+
+    def stopped():
+        return hangs[0] >= MAX_HANGS
+
     def make_request(scn):
+        if fe.has_escape(scn["toks"]):
+            scn["toks"] = fe.unescape(scn["toks"])
+            scn["ast"] = fe.unescape(scn["ast"])
+        long_ = wants_long(scn)
         with lock:
             nextid[0] += 1
             i = nextid[0]
             pending[i] = scn
-        return dict(mode="c10", toks=scn["toks"], trail=scn["junk"] > 0, id=i)
+        return dict(mode="c10", toks=scn["toks"], trail=scn["junk"] > 0, long=long_, id=i)
 
     def on_result(req, res):
+        if res.get("fatal"):
+            retry.append(req)
+            return
         if not res.get("ok"):
             raise vlib.Undecided("harness error: %r" % (res,))
         with lock:
@@ -262,7 +289,12 @@ def _run(ctx, pool):
             else:
                 stats["trailing_scenarios"] += 1
             stats["renderings"] += res["n"]
+            if req.get("long"):
+                stats["long_scenarios"] += 1
+            stats["long_rendering_groups"] += res.get("nlong", 0)
             for g in res["groups"]:
+                if g["kind"] == "hang":
+                    hangs[0] += 1
                 if g["kind"] == "error":
                     stats["error_renderings"] += 1
                 elif g["kind"] == "panic":
@@ -283,25 +315,48 @@ def _run(ctx, pool):
     m = tier["main"]
     res = fe.stream_tlc(ctx, pool, "c10", fe.cfg(m["size"], m["slices"], init="GenPick", next_="GenNextComplete",
                                                 invariants=("GrammarUsesOnly",)),
-                        make_request, on_result, timeout=1500)
+                        make_request, on_result, timeout=1500, stop=stopped)
     configs.append(dict(run="complete derivations", size=m["size"], distinct_states=res.distinct, generated=res.generated,
                         scenarios=res.scenarios, tlc_wall_s=round(res.wall, 1)))
     t = tier["trail"]
-    res = fe.stream_tlc(ctx, pool, "c10trail", fe.cfg(t["size"], t["slices"], stmts=t["stmts"], vocab="MC_TrailVocab",
+    res = None if stopped() else fe.stream_tlc(ctx, pool, "c10trail", fe.cfg(t["size"], t["slices"], stmts=t["stmts"], vocab="MC_TrailVocab",
                                                      vocab2="MC_None", max_junk=1, at_end=True, init="GenPick",
                                                      next_="GenNextComplete", invariants=("GrammarUsesOnly",)),
-                        make_request, on_result, timeout=900)
-    configs.append(dict(run="statement + one token that cannot continue it", size=t["size"], distinct_states=res.distinct,
-                        generated=res.generated, scenarios=res.scenarios, tlc_wall_s=round(res.wall, 1)))
+                        make_request, on_result, timeout=900, stop=stopped)
+    if res is not None:
+        configs.append(dict(run="statement + one token that cannot continue it", size=t["size"], distinct_states=res.distinct,
+                            generated=res.generated, scenarios=res.scenarios, tlc_wall_s=round(res.wall, 1)))
+    if retry:
+        # requests whose worker died under them: one at a time, so that a death is blamed on the right statement
+        again, retry[:] = list(retry), []
+
+        def on_retry(req, res):
+            if res.get("fatal"):
+                scn = pending.pop(req["id"])
+                v = viol.setdefault("front-end-fatal-crash", dict(count=0, example=None, fids=["front-end-fatal-crash"]))
+                v["count"] += 1
+                if v["example"] is None:
+                    v["example"] = dict(size=(0, 0), scn=scn, what="the worker process died: " + "; ".join(res.get("viol", []))[:500],
+                                        group=dict(text="", renderings=["?"], kind="fatal", msg="; ".join(res.get("viol", []))[:500]))
+                return
+            on_result(req, res)
+        pool.run_all(again, on_retry, chunk=1)
+    if stopped():
+        ctx.note("stopped feeding statements after %d hangs (each costs a watchdog period); coverage of this run is partial" % hangs[0])
+        pending.clear()
     if pending:
         raise vlib.Undecided("%d scenarios were not answered" % len(pending))
 
     # ---- vacuity
     info = fe.one_request(pool, dict(mode="info"))
-    missing = tally.missing({v.upper() for v in info["kinds"].values()})
+    missing = [] if stopped() else tally.missing({v.upper() for v in info["kinds"].values()})
+    if not stopped() and (stats["long_scenarios"] == 0 or stats["long_rendering_groups"] == 0):
+        missing.append("texts longer than the scanner's buffer")
+    if not stopped() and not any(any(ord(ch) > 0xFFFF for ch in x) for x in tally.strs):
+        missing.append("string literal with a 4-byte character")
     if missing:
         raise vlib.Undecided("vacuous: the enumerated statements never used: " + "; ".join(missing))
-    if stats["trailing_scenarios"] == 0:
+    if stats["trailing_scenarios"] == 0 and not stopped():
         raise vlib.Undecided("vacuous: no trailing-token scenario")
 
     # ---- violations: one replay file per signature, smallest example, re-run once before it is believed
@@ -309,7 +364,12 @@ def _run(ctx, pool):
         v = viol[sig]
         ex = v["example"]
         scn, g = ex["scn"], ex["group"]
-        again = fe.one_request(pool, dict(mode="c10", toks=scn["toks"], trail=scn["junk"] > 0, id=0))
+        if sig == "front-end-fatal-crash":
+            vlib.report_violation(ctx, dict(kind="c10", signature=sig, what=ex["what"], cases_with_this_signature=v["count"],
+                                            scenario=dict(ast=scn["ast"], toks=scn["toks"], junk=scn["junk"], form=scn["form"])),
+                                  signature=sig, finding_ids=v["fids"])
+            continue
+        again = fe.one_request(pool, dict(mode="c10", toks=scn["toks"], trail=scn["junk"] > 0, long=wants_long(scn), id=0))
         same = [h for h in again.get("groups", []) if h["text"] == g["text"] or h["renderings"][0] == g["renderings"][0]]
         if not same or classify(scn, same[0]) is None or classify(scn, same[0])[0] != sig:
             raise vlib.Undecided("violation %s did not reproduce on a second run" % sig)
@@ -325,7 +385,8 @@ def _run(ctx, pool):
                     "(distinct renderings of all scenarios); distinct = distinct abstract statements; non-trivial = SqlGrammar!NonTrivial: "
                     "the statement has an optional token (INNER/AS/ASC or a GROUP BY separator) or a condition tree with an AND/OR node",
                samples=samples, exhaustive=True, statements=len(distinct), scenarios=stats["scenarios"],
-               trailing_scenarios=stats["trailing_scenarios"], renderings_with_error=stats["error_renderings"],
+               trailing_scenarios=stats["trailing_scenarios"], statements_also_rendered_longer_than_scanner_buffer=stats["long_scenarios"], texts_longer_than_scanner_buffer=stats["long_rendering_groups"],
+               renderings_with_error=stats["error_renderings"],
                renderings_with_panic=stats["panic_renderings"], statement_kinds=tally.kinds, max_list_lengths=tally.maxlen,
                configs=configs, violation_signatures={k: v["count"] for k, v in viol.items()},
                refused_by_design_not_generated=[r[0] for r in REFUSED_BY_DESIGN])
